@@ -39,7 +39,7 @@ def aliases(fn):
     cands.sort(key=lambda c: (c[2].get("line", 0), c[2].get("col", 0)))
     for name, init, n in cands:
         p = init.strip_all_casts().get("path")
-        if p and p.startswith("&") and ("->" in p or "." in p):
+        if p and p.startswith("&") and ("->" in p or "." in p or "[" in p):
             full = resolve(p[1:])
             if name in al and al[name] != full:
                 al[name] = None
@@ -123,7 +123,50 @@ def return_stores(fn):
     return out
 
 
-def must_stored(fn, reset_calls=(), addr_counts=False, callee_summaries=None):
+_EXIT_STORES = {}
+
+
+def translate(path, params, args, resolve):
+    """path over callee parameter names -> path in the caller, or None"""
+    import re as _re
+    m = _re.match(r"(\*?)(\w+)(.*)", path)
+    if not m:
+        return None
+    star, root, rest = m.groups()
+    if root not in params:
+        return None
+    a = args[params.index(root)] if params.index(root) < len(args) else None
+    if a is None:
+        return None
+    ap = a.strip_all_casts().get("path")
+    if not ap:
+        return None
+    if star:
+        base = ap[1:] if ap.startswith("&") else "*" + ap
+        return norm(resolve(base + rest)) if not rest.startswith("->") else None
+    if not rest:
+        return None
+    if rest.startswith("->"):
+        if ap.startswith("&"):
+            return norm(resolve(ap[1:] + "." + rest[2:]))
+        return norm(resolve(ap + rest))
+    return None
+
+
+def exit_stores(prog, g, stack=()):
+    """paths (over g's parameter names) stored on EVERY path of g from entry to exit"""
+    key = (id(prog), g.name)
+    if key in _EXIT_STORES:
+        return _EXIT_STORES[key]
+    if g.name in stack:
+        return set()
+    pg, st = must_stored(g, prog=prog, _stack=stack + (g.name,))
+    out = set(st.get(pg.exit, frozenset()))
+    _EXIT_STORES[key] = out
+    return out
+
+
+def must_stored(fn, reset_calls=(), addr_counts=False, callee_summaries=None, prog=None, _stack=()):
     """forward must-analysis of 'full path was stored'; `reset_calls`: callee names at which the
     set is emptied (start of an iteration); addr_counts: passing &path to a call counts as a
     store (the callee fills the object)."""
@@ -150,6 +193,18 @@ def must_stored(fn, reset_calls=(), addr_counts=False, callee_summaries=None):
         if n.k == "CallExpr":
             if n.get("callee") in reset_calls:
                 return frozenset()
+            if prog is not None and n.get("callee"):
+                g = prog.fn(n["callee"])
+                if g is not None and g.static and g.name != fn.name:
+                    es = exit_stores(prog, g, _stack + (fn.name,))
+                    params = [p_["name"] for p_ in g.params]
+                    add = set()
+                    for q in es:
+                        t_ = translate(q, params, call_args(n), resolve)
+                        if t_:
+                            add.add(t_)
+                    if add:
+                        state = state | frozenset(add)
             if addr_counts:
                 add = set()
                 for a in call_args(n):
